@@ -300,8 +300,15 @@ def check(run):
     body_starts = succs(fornode, 'body')
     body_nodes = g.reachable(body_starts, avoid={fornode}, skip_edge=lambda a, b, l: l.startswith('exc:'))
     ylds = [n for n in body_nodes if n.kind == 'yield']
-    good = [y for y in ylds if isinstance(y.ast.value, ast.Name) and y.ast.value.id == loopvar
-            and rd.defs_at(y, loopvar) == {fornode}]
+    def _is_loopvar(y):
+        v = y.ast.value
+        if not isinstance(v, ast.Name):
+            return False
+        if v.id == loopvar:
+            return rd.defs_at(y, loopvar) == {fornode}
+        o, on = rd.origin(y, v)           # a local copy of the loop variable
+        return isinstance(o, ast.Name) and o.id == loopvar and rd.defs_at(on, loopvar) == {fornode}
+    good = [y for y in ylds if _is_loopvar(y)]
     R.ob('C16.passthrough', 'yield of the loop variable', len(good) == 1 and len(ylds) == 1,
          'expected exactly one `yield %s` (unmodified) in the loop body, found %d yields, %d of the loop variable'
          % (loopvar, len(ylds), len(good)), func=FN, node=loop_stmt, construct='for-body of ' + U(loop_stmt.iter))
@@ -433,6 +440,11 @@ def check(run):
     for z in resets:
         gs = guards_of(g, z)
         ok = any(pol and _is_ready_test(t.ast, loopvar) for (txt, pol, t) in gs) and z in body_nodes
+        if not ok and z in body_nodes:
+            # the test may be kept in a flag / spelled the other way round: any equivalent form of a dominating guard
+            from .common import guard_atom_sets
+            want = {("%s.name == 'ready'" % loopvar, True), ("'ready' == %s.name" % loopvar, True)}
+            ok = any(want & set(forms) for forms in guard_atom_sets(g, z))
         R.ob('C16.growth', 'reset only on ready', ok,
              'retries reset to 0 not guarded by %s.name == "ready" (guards: %s)' % (loopvar, [x[0] for x in gs]),
              func=FN, node=z.ast)
